@@ -1,6 +1,7 @@
 ---- MODULE MC_Inherit ----
 EXTENDS Inherit
-Dc(ty, df, b, doc, k, an, inst) == [ty |-> ty, default |-> df, bounds |-> b, doc |-> doc, constant |-> k, an |-> an, inst |-> inst]
+Dc(ty, df, b, doc, k, an, inst) == [ty |-> ty, default |-> df, bounds |-> b, doc |-> doc, constant |-> k, an |-> an, inst |-> inst, incl |-> "U"]
+DcX(ty, df, b) == [ty |-> ty, default |-> df, bounds |-> b, doc |-> "U", constant |-> "U", an |-> "U", inst |-> "U", incl |-> "xx"]
 DeclsT == {
   Dc("Parameter", "U", "U", "U", "U", "U", "U"),
   Dc("Parameter", "s", "U", "d1", "U", "U", "U"),
@@ -19,8 +20,12 @@ DeclsT == {
   Dc("Integer", "1", "U", "U", "T", "U", "U"),
   Dc("Integer", "U", "b02", "U", "U", "U", "U"),
   Dc("String", "U", "U", "U", "U", "U", "U"),
-  Dc("String", "s", "U", "U", "U", "T", "U") }
+  Dc("String", "s", "U", "U", "U", "T", "U"),
+  Dc("Number", "0", "b02", "U", "U", "U", "U"),        \* default sitting on a bound
+  DcX("Number", "U", "U"),                              \* only makes the inherited bounds exclusive
+  DcX("Number", "1", "b02") }
 DeclsQ == {d \in DeclsT : d.ty # "String" /\ d.default # "1.5" /\ ~(d.ty = "Integer" /\ d.bounds = "b02") /\ ~(d.ty = "Parameter" /\ d.default = "5")}
+DeclsQD == {d \in DeclsQ : d.doc = "U" /\ d.constant = "U" /\ ~(d.ty = "Integer")}
 RootQ == {d \in DeclsQ : d.inst = "U" /\ d.constant = "U"}
 ShapesAll == {"chain", "skip", "diamondBC", "diamondCB"}
 ShapesChain == {"chain", "skip"}
